@@ -1,6 +1,6 @@
 (* Proofs about Model/ZincDump.v and its composition with Model/ZincParse.v. *)
 From Coq Require Import String.
-From Coq Require Import List NArith Bool Lia.
+From Coq Require Import List NArith ZArith Bool Lia.
 From HS Require Import Base.Prelude Model.Value Model.Escape Model.Version Model.Json Model.ZincDump Model.ZincParse.
 From HS Require Import Proofs.EscapeP Proofs.ZincParseP.
 Import ListNotations.
@@ -54,4 +54,194 @@ Proof.
   - match type of Eh with (do mt <- ?h; _) = _ => destruct h as [mt|x] end; cbn [bind] in Eh; [|discriminate].
     inversion Eh; subst header. exists e. eexists. split; [exact He|].
     rewrite <- ?app_assoc. cbn [List.app]. rewrite <- ?app_assoc. cbn [List.app]. rewrite <- ?app_assoc. cbn [List.app]. reflexivity.
+Qed.
+
+(* ---- no character below U+0020 ---- *)
+Definition clean (t : str) : Prop := Forall (fun c => 32 <= c) t.
+Lemma clean_app a b : clean a -> clean b -> clean (a ++ b).
+Proof. intros. apply Forall_app. split; assumption. Qed.
+Lemma clean_cons c t : 32 <= c -> clean t -> clean (c :: t).
+Proof. intros. constructor; assumption. Qed.
+Lemma clean_const s : forallb (fun c => 32 <=? c) s = true -> clean s.
+Proof. intro H. apply Forall_forall. intros c Hc. rewrite forallb_forall in H. apply N.leb_le. exact (H c Hc). Qed.
+Lemma clean_join sep l : clean sep -> Forall clean l -> clean (join sep l).
+Proof.
+  intros Hs. induction 1 as [|x l Hx Hl IH]; cbn [join]; [constructor|].
+  destruct l as [|y l']; [exact Hx|]. apply clean_app; [exact Hx|]. apply clean_app; [exact Hs|exact IH].
+Qed.
+Lemma clean_str s t : zdump_str s = Ok t -> clean t.
+Proof.
+  unfold zdump_str. destruct (escape_str s) as [e|x] eqn:E; cbn [bind]; intro Q; inversion Q; subst.
+  apply clean_cons; [unfold DQ; lia|]. apply clean_app; [|apply clean_cons; [unfold DQ; lia|constructor]].
+  apply Forall_forall. exact (all_ge32 DQ str_esc_letters false esc_str_char dq_ne dq_32 every_char_str s e E).
+Qed.
+Lemma clean_uri s t : zdump_uri s = Ok t -> clean t.
+Proof.
+  unfold zdump_uri. destruct (escape_uri s) as [e|x] eqn:E; cbn [bind]; intro Q; inversion Q; subst.
+  apply clean_cons; [unfold BQ; lia|]. apply clean_app; [|apply clean_cons; [unfold BQ; lia|constructor]].
+  apply Forall_forall. exact (all_ge32 BQ uri_esc_letters true esc_uri_char bq_ne bq_32 every_char_uri s e E).
+Qed.
+Lemma ge32_48 k : 32 <= 48 + k. Proof. lia. Qed.
+Ltac cl := unfold clean; repeat (apply Forall_cons; [cbv beta; first [apply ge32_48 | lia]|]); apply Forall_nil.
+Lemma clean_d2 n : clean (d2 n). Proof. unfold d2. cl. Qed.
+Lemma clean_d4 n : clean (d4 n). Proof. unfold d4. cl. Qed.
+Lemma clean_d6 n : clean (d6 n). Proof. unfold d6. cl. Qed.
+Lemma clean_iso_date y m d : clean (iso_date y m d).
+Proof. unfold iso_date. repeat apply clean_app; try apply clean_d2; try apply clean_d4; cl. Qed.
+Lemma clean_iso_time h mi s us : clean (iso_time h mi s us).
+Proof.
+  unfold iso_time. repeat apply clean_app; try apply clean_d2; try cl.
+  destruct (us =? 0); [constructor|apply clean_cons; [lia|apply clean_d6]].
+Qed.
+Lemma clean_iso_offset off : clean (iso_offset off).
+Proof.
+  unfold iso_offset. repeat apply clean_app; try apply clean_d2; try cl.
+  - destruct (off <? 0)%Z; cl.
+  - destruct (_ =? 0); [constructor|apply clean_cons; [lia|apply clean_d2]].
+Qed.
+Lemma clean_iso_datetime y m d h mi s us off : clean (iso_datetime y m d h mi s us off).
+Proof.
+  unfold iso_datetime. apply clean_app; [apply clean_iso_date|]. apply clean_app; [cl|]. apply clean_app; [apply clean_iso_time|apply clean_iso_offset].
+Qed.
+
+(* ---- res_map ---- *)
+Lemma res_map_ok {A B} (f : A -> res B) : forall l r, res_map f l = Ok r -> Forall2 (fun x y => f x = Ok y) l r.
+Proof.
+  induction l as [|x l IH]; intros r; cbn [res_map]; [intro Q; inversion Q; constructor|].
+  destruct (f x) as [y|e] eqn:Ef; cbn [bind]; [|discriminate].
+  destruct (res_map f l) as [r'|e]; cbn [bind]; [|discriminate]. intro Q; inversion Q; subst. constructor; [exact Ef|apply IH; reflexivity].
+Qed.
+Lemma Forall2_length {A B} (R : A -> B -> Prop) l r : Forall2 R l r -> length r = length l.
+Proof. induction 1; cbn [length]; congruence. Qed.
+
+(* ---- values whose text tokens hold no control character (the writer copies them verbatim) ---- *)
+Fixpoint wfv (fuel : nat) (v : hval) : Prop :=
+  match fuel with
+  | O => False
+  | S f =>
+      match v with
+      | VNum _ z _ u => clean z /\ match u with Some x => clean x | None => True end
+      | VBin s => clean s
+      | VRef n _ => clean n
+      | VXStr en _ => clean en
+      | VCoord a b => clean a /\ clean b
+      | VDateTime _ _ _ _ _ _ _ _ z => match z with ZName n => clean n | ZError _ => True end
+      | VList l => Forall (wfv f) l
+      | VDict d => Forall (fun kv => clean (fst kv) /\ wfv f (snd kv)) (dict_of d)
+      | VGrid _ _ _ _ => False
+      | _ => True
+      end
+  end.
+
+Lemma clean_znum k z : clean z -> clean (znum_text k z).
+Proof. intro H. destruct k; cbn [znum_text]; try exact H; apply clean_const; reflexivity. Qed.
+
+Lemma ok_inj {A} (a b : A) : Ok a = Ok b -> a = b. Proof. congruence. Qed.
+
+Lemma zdump_clean : forall f p v t, wfv f v -> zdump f p v = Ok t -> clean t.
+Proof.
+  induction f as [|f IH]; intros p v t; cbn [wfv zdump]; [tauto|].
+  destruct v as [| | | |b|k z j u|s|s|s|n d|en tx|y m d|h mi s us|y m d h mi s us off zn|iso zn|la lo|l|d|ver meta cols rows]; intro W.
+  - intro Q; apply ok_inj in Q; subst t; cl.
+  - intro Q; apply ok_inj in Q; subst t; cl.
+  - destruct p; [discriminate|]. intro Q; apply ok_inj in Q; subst t; cl.
+  - intro Q; apply ok_inj in Q; subst t; cl.
+  - intro Q; apply ok_inj in Q; subst t; destruct b; cl.
+  - destruct W as [Wz Wu]. destruct u as [[|c u']|]; intro Q; apply ok_inj in Q; subst t; try (apply clean_znum; exact Wz).
+    apply clean_app; [apply clean_znum; exact Wz|exact Wu].
+  - apply clean_str.
+  - apply clean_uri.
+  - intro Q; apply ok_inj in Q; subst t. apply clean_app; [apply clean_const; reflexivity|]. apply clean_app; [exact W|cl].
+  - destruct d as [d|]; [|intro Q; apply ok_inj in Q; subst t; apply clean_cons; [lia|exact W]].
+    destruct (zdump_str d) as [dt|e] eqn:Ed; cbn [bind]; [|discriminate]. intro Q; apply ok_inj in Q; subst t.
+    apply clean_cons; [lia|]. apply clean_app; [exact W|]. apply clean_cons; [lia|]. eapply clean_str; eauto.
+  - destruct p; [discriminate|]. destruct (zdump_str tx) as [dt|e] eqn:Ed; cbn [bind]; [|discriminate]. intro Q; apply ok_inj in Q; subst t.
+    apply clean_app; [exact W|]. apply clean_cons; [lia|]. apply clean_app; [eapply clean_str; eauto|cl].
+  - intro Q; apply ok_inj in Q; subst t. apply clean_iso_date.
+  - intro Q; apply ok_inj in Q; subst t. apply clean_iso_time.
+  - destruct zn as [n|e]; [|discriminate]. intro Q; apply ok_inj in Q; subst t. apply clean_app; [apply clean_iso_datetime|]. apply clean_cons; [lia|exact W].
+  - discriminate.
+  - destruct W as [Wa Wb]. intro Q; apply ok_inj in Q; subst t. apply clean_app; [apply clean_const; reflexivity|]. apply clean_app; [exact Wa|].
+    apply clean_cons; [lia|]. apply clean_app; [exact Wb|cl].
+  - destruct p; [discriminate|]. destruct (res_map (zdump f false) l) as [items|e] eqn:Er; cbn [bind]; [|discriminate]. intro Q; apply ok_inj in Q; subst t.
+    apply clean_cons; [lia|]. apply clean_app; [|cl]. apply clean_join; [cl|].
+    apply res_map_ok in Er. clear -Er W IH. induction Er as [|x y l r Hxy Hl IHl]; [constructor|]. inversion W; subst.
+    constructor; [eapply IH; eauto|apply IHl; assumption].
+  - destruct p; [discriminate|].
+    match goal with |- (do items <- ?m; _) = _ -> _ => destruct m as [items|e] eqn:Er end; cbn [bind]; [|discriminate]. intro Q; apply ok_inj in Q; subst t.
+    apply clean_cons; [lia|]. apply clean_app; [|cl]. apply clean_join; [cl|].
+    apply res_map_ok in Er. clear -Er W IH. induction Er as [|x y l r Hxy Hl IHl]; [constructor|]. inversion W; subst.
+    constructor; [|apply IHl; assumption].
+    destruct (zdump f false (snd x)) as [tv|e] eqn:Ev; cbn [bind] in Hxy; [|discriminate]. apply ok_inj in Hxy; subst y.
+    destruct H1 as [Hk Hv]. apply clean_app; [exact Hk|]. apply clean_cons; [lia|]. eapply IH; eauto.
+  - destruct W.
+Qed.
+
+(* ---- the layout of a dumped grid ---- *)
+Definition wf_tags (f : nat) (m : list (str * hval)) : Prop := Forall (fun kv => clean (fst kv) /\ wfv f (snd kv)) m.
+Definition cell_of (c : str * list (str * hval)) (row : list (str * hval)) : hval :=
+  match assoc (fst c) row with Some x => x | None => VNull end.
+
+Lemma dump_meta_clean f p3 (m : list (str * hval)) mt :
+  wf_tags f m ->
+  (do items <- res_map (fun kv : str * hval => match snd kv with
+                                  | VMarker => Ok (fst kv)
+                                  | x => do t <- zdump f p3 x; Ok (fst kv ++ 58 :: t)
+                                  end) m;
+   Ok (join [32] items)) = Ok mt -> clean mt.
+Proof.
+  intros W. match goal with |- (do items <- ?r; _) = _ -> _ => destruct r as [items|e] eqn:Er end; cbn [bind]; [|discriminate].
+  intro Q; apply ok_inj in Q; subst mt. apply clean_join; [cl|].
+  apply res_map_ok in Er. induction Er as [|x y l r Hxy Hl IHl]; [constructor|]. inversion W; subst. destruct H1 as [Hk Hv].
+  constructor; [|apply IHl; assumption].
+  assert (G : forall v, v = snd x -> (do t <- zdump f p3 v; Ok (fst x ++ 58 :: t)) = Ok y -> clean y).
+  { intros v Ev. subst v. destruct (zdump f p3 (snd x)) as [tv|e] eqn:Ev; cbn [bind]; [|discriminate].
+    intro Q; apply ok_inj in Q; subst y. apply clean_app; [exact Hk|]. apply clean_cons; [lia|]. eapply zdump_clean; eauto. }
+  destruct (snd x) eqn:Es; try (apply (G _ eq_refl); exact Hxy).
+  apply ok_inj in Hxy. subst y. exact Hk.
+Qed.
+
+Theorem zdump_grid_layout f ver meta cols rows t :
+  zdump_grid (S f) ver meta cols rows = Ok t ->
+  wf_tags f meta ->
+  Forall (fun c => clean (fst c) /\ wf_tags f (snd c)) cols ->
+  Forall (fun row => Forall (fun c => wfv f (cell_of c row)) cols) rows ->
+  exists header colline rowlines,
+    t = join NL1 ([header; colline] ++ rowlines ++ [[]]) /\
+    clean header /\ clean colline /\
+    Forall2 (fun row line => exists cells, line = join [44] cells /\ length cells = length cols /\ Forall clean cells) rows rowlines.
+Proof.
+  intros H Wm Wc Wr. cbn [zdump_grid] in H.
+  destruct (pre3_of ver) as [p3|e]; cbn [bind] in H; [|discriminate].
+  destruct (zdump_str ver) as [vt|e] eqn:Ev; cbn [bind] in H; [|discriminate].
+  match type of H with (do header <- ?h; _) = _ => destruct h as [header|e] eqn:Eh end; cbn [bind] in H; [|discriminate].
+  destruct cols as [|c0 cols0] eqn:Ecols; [discriminate|]. rewrite <- Ecols in *.
+  match type of H with (do cs <- ?h; _) = _ => destruct h as [cs|e] eqn:Ecs end; cbn [bind] in H; [|discriminate].
+  match type of H with (do rs <- ?h; _) = _ => destruct h as [rs|e] eqn:Ers end; cbn [bind] in H; [|discriminate].
+  apply ok_inj in H. subst t. exists header, (join [44] cs), rs. split; [reflexivity|].
+  assert (Hvt : clean vt) by (eapply clean_str; eauto).
+  split; [|split].
+  - (* header *)
+    destruct meta as [|m0 meta0] eqn:Em.
+    + apply ok_inj in Eh. subst header. apply clean_app; [apply clean_const; reflexivity|exact Hvt].
+    + rewrite <- Em in *. match type of Eh with (do mt <- ?h; _) = _ => destruct h as [mt|e] eqn:Emt end; cbn [bind] in Eh; [|discriminate].
+      apply ok_inj in Eh. subst header. apply clean_app; [apply clean_const; reflexivity|]. apply clean_app; [exact Hvt|].
+      apply clean_cons; [lia|]. eapply dump_meta_clean; eauto.
+  - (* column line *)
+    apply clean_join; [cl|]. apply res_map_ok in Ecs. clear -Ecs Wc.
+    induction Ecs as [|x y l r Hxy Hl IHl]; [constructor|]. inversion Wc; subst. destruct H1 as [Hk Hm].
+    constructor; [|apply IHl; assumption].
+    destruct (snd x) as [|m0 ms] eqn:Es.
+    + apply ok_inj in Hxy. subst y. exact Hk.
+    + rewrite <- Es in *. match type of Hxy with (do mt <- ?h; _) = _ => destruct h as [mt|e] eqn:Emt end; cbn [bind] in Hxy; [|discriminate].
+      apply ok_inj in Hxy. subst y. apply clean_app; [exact Hk|]. apply clean_cons; [lia|]. eapply dump_meta_clean; eauto.
+  - (* one line per row, every cell present *)
+    apply res_map_ok in Ers. clear -Ers Wr.
+    induction Ers as [|row line l r Hrl Hl IHl]; [constructor|]. inversion Wr; subst.
+    constructor; [|apply IHl; assumption].
+    match type of Hrl with (do cells <- ?h; _) = _ => destruct h as [cells|e] eqn:Ece end; cbn [bind] in Hrl; [|discriminate].
+    apply ok_inj in Hrl. subst line. exists cells. split; [reflexivity|]. apply res_map_ok in Ece.
+    split; [eapply Forall2_length; eauto|].
+    clear -Ece H1. induction Ece as [|c y cs ys Hcy Hcs IH]; [constructor|]. inversion H1; subst.
+    constructor; [|apply IH; assumption]. eapply zdump_clean; [|exact Hcy]. exact H2.
 Qed.
